@@ -22,7 +22,7 @@ BUDGET = {"quick": 3000, "thorough": 40000}
 MIN_NONTRIVIAL = {"quick": 300, "thorough": 3000}
 REQUIRED_FUNCTIONS = ["listener.py:BlackbirdListener.exitArrayvar", "auxiliary.py:_expression", "program.py:BlackbirdProgram.serialize", "listener.py:is_ptype"]
 FUNCTIONS = REQUIRED_FUNCTIONS
-REQUIRED_TAGS = ["tdm", "control", "parray:int", "parray:float", "parray:complex", "parray:keyword", "parray:in-loop", "with:template-parameter", "with:ordinary-array", "with:scalar", "parray:long", "parray:whole-array-parameter"]
+REQUIRED_TAGS = ["tdm", "control", "parray:int", "parray:float", "parray:complex", "parray:keyword", "parray:in-loop", "with:template-parameter", "with:ordinary-array", "with:scalar", "parray:long", "parray:whole-array-parameter", "ordinary-array-named-like-hoisted"]
 ASSUMPTIONS = ["tdm rule of the reference: an array named p<digits> used as a whole argument denotes its name (DESIGN Appendix A rule 12)"]
 
 
@@ -72,7 +72,19 @@ def build(rng, g, tdm=True):
         if t:
             decls.append(t)
             tags.add("with:scalar")
-    for _ in range(rng.choice([0, 0, 1, 2])):
+    hoisted_like = rng.random() < 0.12
+    for _ in range(rng.choice([0, 0, 1, 2]) if not hoisted_like else rng.choice([2, 3])):
+        if hoisted_like:
+            # ordinary arrays named like the names the serialiser invents for arrays passed by value
+            nm_ = rng.choice([n_ for n_ in ("A0", "A1", "A2", "A3") if n_ not in G.used] or [None])
+            if nm_:
+                G.used.add(nm_)
+            t = G.decl_array(name=nm_, param_p=0.0)
+            if t:
+                decls.append(t)
+                tags.add("with:ordinary-array")
+                tags.add("ordinary-array-named-like-hoisted")
+            continue
         t = G.decl_array(name=rng.choice([None, "P0", "pa", "q", "p_1", "pp1", "p0_left", "p1a", "p12x", "p3_", "p", "p0p", "p1_0", "p10_2", "p0_0", "p1_000", "p1e3", "p0x1", "p00a"]) if rng.random() < 0.5 else None, param_p=0.0)
         if t:
             decls.append(t)
@@ -93,11 +105,16 @@ def build(rng, g, tdm=True):
                 args.append(rng.choice(declared_p))
             else:
                 args.append(G.value_text(depth=1))
-        for _ in range(rng.choice([0, 0, 1, 2])):
+        ordinary = [n_ for n_ in G.arrays if n_ not in declared_p]
+        for _ in range(rng.choice([0, 0, 1, 2]) + (2 if hoisted_like else 0)):
             k = G.ident(fresh=False)
-            if rng.random() < 0.5:
+            c = rng.random()
+            if c < 0.4:
                 kws.append("%s=%s" % (k, rng.choice(declared_p)))
                 tags.add("parray:keyword")
+            elif c < 0.6 and ordinary:
+                # an ordinary array passed by value in keyword position
+                kws.append("%s=%s" % (k, rng.choice(ordinary)))
             else:
                 kws.append("%s=%s" % (k, G.value_text(depth=1)))
         al = "(" + ", ".join(args + kws) + ")" if (args or kws or rng.random() < 0.5) else ""
